@@ -73,6 +73,9 @@ type Tx struct {
 	SeqDelta int   `json:"seqd,omitempty"`   // signed with expected sequence + SeqDelta (mempool reorder / stale tx)
 	Dup      bool  `json:"dup,omitempty"`    // the same signed bytes are included a second time right after
 	Note     string `json:"note,omitempty"`  // generator's intent (valid / which single reason invalid), informational
+	// RawMsgJSON: when set, the message put on chain is decoded from this JSON (as emitted by the
+	// node binary with --generate-only) instead of being built from Msg (C20, CLI in the loop).
+	RawMsgJSON string `json:"raw_msg_json,omitempty"`
 }
 
 // Keeper-API operations made by "another module" between blocks.
